@@ -746,7 +746,9 @@ class Prop(fw.PropBase):
                 continue
             got = canon_cells(lib, run, rr['cells'])
             exp = {tuple(c[:5]): c[5] for c in m[1]}
-            if got is None or got != exp or len(exp) != len(m[1]):
+            # a negative bin size is outside every hypothesis of the statement (bin sizes are positive): which cells such
+            # a run produces is not constrained and not compared
+            if run['b'] > 0 and (got is None or got != exp or len(exp) != len(m[1])):
                 dis.append(dict(tag, model=sorted(exp.items()), impl=sorted((got or {}).items())))
             # the python oracle used by search() is the Coq [decl] (theorem statement) - tie them
             dd = {tuple(c[:5]): c[5] for c in md[0]}
@@ -797,7 +799,8 @@ class Prop(fw.PropBase):
         if dis:
             self.dis = dis
             raise fw.Broken('correspondence', 'model and implementation disagree on %d cases; first: %s'
-                            % (len(dis), json.dumps(dis[0], default=str)[:1500]))
+                            % (len(dis), json.dumps({k: dis[0][k] for k in sorted(dis[0], key=lambda k: (k == 'lib', k))},
+                                                    default=str)[:2500]))
 
 
 def _hist(it):
